@@ -153,6 +153,8 @@ def check(ctx, rep):
              "directory: the base filter is evaluated with the shipped patterns on names on both sides of their alternatives", floor=1)
     rep.rule("R07o", "link files (.Links, .names, .cap/*) are decoded the way directory names are (UTF-8 with surrogateescape): a Path= that names an "
              "entry by bytes that are not UTF-8 still equals that entry's selector, so hiding and merging work for it", floor=1)
+    rep.rule("R07p", "= R10f: the selector filter lets ordinary names through (one character long, with dots or blanks inside, starting with a dot, "
+             "not UTF-8) - a name it refuses drops out of every listing and cannot be fetched", floor=1)
     rep.rule("R07i", "= R10c: the listing kept for later requests is the final one (hidden names removed, merged, sorted) - never an intermediate list", floor=2)
     rep.rule("R07h", "the real-file-system VFS lists names exactly as the OS returns them (file-system decoding only): the selector built from a listed name is the name on disk", floor=1)
     rep.rule("R07f", "a name is appended to the file list exactly when the filter accepts it, once", floor=1)
@@ -324,6 +326,9 @@ def check(ctx, rep):
     shared_state_obligations(ctx, rep, "R07j", _Eff(prog, ctx.resolver), listing_funcs, sequential=True)
     if len(rep.obligations) == n_before:
         rep.ok("R07j", f"no module- or class-level state is written while a listing is built [{len(listing_funcs)} functions]", "pygopherd/handlers/dir.py")
+    # ------------------------------------------------------------------ R07p
+    from .c10 import alias_obligations
+    alias_obligations(ctx, rep, "R07p")
     # ------------------------------------------------------------------ R07o
     link_decoding_obligations(ctx, rep, "R07o")
     # ------------------------------------------------------------------ R07n
